@@ -208,3 +208,10 @@ def deck_non_contiguous() -> bytes:
     blob = deck_with_slides(2)
     return rename_members(blob, {"/ppt/slides/slide1.xml": "/ppt/slides/slide3.xml",
                                  "/ppt/slides/slide2.xml": "/ppt/slides/slide7.xml"})
+
+
+def deck_names_1_5_3() -> bytes:
+    """Three slides whose part names are slide1, slide5, slide3 in presentation order: non-contiguous, out of
+    order, and the last one happens to be called slide<n>."""
+    blob = deck_with_slides(3)
+    return rename_members(blob, {"/ppt/slides/slide2.xml": "/ppt/slides/slide5.xml"})
